@@ -22,6 +22,7 @@ func TestVerif(t *testing.T) {
 		Rule: "every scripted history of length <= 4 (thorough 5) over {Push x5, Tag x6, Untag x2, Delete x4, GC, SaveIndex} on an initialised OCI layout (AutoSaveIndex on, AutoGC on and off); the last operation is the interrupted one: " +
 			"for every k from 1 to the number of mutating file-system operations it issues, the disk is frozen before the k-th one (every later operation fails without touching the disk, as after SIGKILL), " +
 			"then the directory is reopened and checked: opens, every blob file matches its name, every index entry names an existing blob, tag map = before or after, earlier effects present. " +
+			"concurrent: six pairs of non-conflicting operations (tag|tag, tag|push manifest, untag|tag, push|push, tag|SaveIndex, push blob|tag) issued by two goroutines on one open store under every schedule within D<=2 [thorough D<=3] around three base schedulers x every crash point k = 0..16 counted over the mutating file-system operations of both (0: no crash): the directory reopens, blobs and index are valid, and the effect of every operation that returned nil is present. " +
 			"evaluations = crash points explored; non-trivial = distinct (history, k) with k after the first mutating operation of the interrupted call",
 		Assumptions: []string{
 			"process-kill model: kernel state = the system calls that completed; torn pages / lost unsynced data (power loss) are outside the property",
@@ -61,7 +62,7 @@ func jobs(tier string) []driver.Job {
 			}})
 		}
 	}
-	return append(confJobs(th), out...)
+	return append(confJobs(th), append(concJobs(th), out...)...)
 }
 
 // replay runs hist on a fresh initialised layout under plan; it returns the
